@@ -1,6 +1,7 @@
 import Gv.Proofs.BagRef10
 import Gv.Proofs.BagRefExt
 import Gv.Proofs.BagRefExt2
+import Gv.Proofs.BagRefExt3
 /-!
 Names stay pairwise distinct (C01): every operation other than the caller's own name edits
 (`Rename`, `RenameRegexp`, `AppendSeqIdentifier`, `CleanNames`, `TrimNames`, `TrimNamesAuto`) keeps the names of a
@@ -256,5 +257,44 @@ theorem ni_stepOp {b : Bag} (h : NI b) (hr : Rect b) (op : Op) (hne : ¬ NameEdi
   | setAlpha a =>
     obtain ⟨f1, f2, f3, -⟩ := setAlphabet_fields a b
     exact h.congr f1 f2 f3
+  | revcompSeqs names =>
+    have s := sameShape_reverseComplementSequences names b h.inv
+    exact h.keys s.keys s.index s.next
+  | diffFirst =>
+    simp only [Model.stepOp]
+    split
+    · exact h
+    · split
+      · exact h
+      · rename_i r hrr
+        have s := sameShape_diffWithFirst hrr
+        exact h.keys s.keys s.index s.next
+  | replaceMatch =>
+    simp only [Model.stepOp]
+    split
+    · exact h
+    · split
+      · exact h
+      · rename_i r hrr
+        have s := sameShape_replaceMatchChars hrr
+        exact h.keys s.keys s.index s.next
+  | mask refseq start len mr nogap noref =>
+    simp only [Model.stepOp]
+    split
+    · exact h
+    · split
+      · exact h
+      · rename_i r hrr
+        have s := sameShape_maskBag hrr
+        exact h.keys s.keys s.index s.next
+  | maskOcc refseq maxOcc mr =>
+    simp only [Model.stepOp]
+    split
+    · exact h
+    · split
+      · exact h
+      · rename_i r hrr
+        have s := sameShape_maskOccBag hrr
+        exact h.keys s.keys s.index s.next
 
 end Gv.Proofs.BagAbs
